@@ -9,7 +9,8 @@
 //!    the loop consults the scope's declarations, the `recurse` gate, the scope's
 //!    imports and the parent scope;
 //!  * `resolve_module_part_of_path` (src/typechecker/expr.rs): the values given
-//!    to `recurse` (initially, after a leading `super`, after every segment);
+//!    to `recurse` (initially, after a leading `super`, after every segment), and
+//!    that a leading `pkg` is looked up from the global scope;
 //!  * `declare_modules` (src/typechecker/mod.rs): the parent of a module scope;
 //!  * `TypeInfo::full_name` (src/typechecker/info.rs): the separator;
 //!  * `Module::get_function` (src/codegen/mod.rs): the prefix of the looked-up name;
@@ -193,6 +194,9 @@ fn scopefacts(repo: &Path) -> Result<String, String> {
             other => return Err(format!("resolve_module_part_of_path: `recurse` is given `{other}`")),
         }
     }
+    // `pkg` at the start of a path: looked up from the global scope
+    let text = flat(&f.block);
+    let pkg_global = text.contains("ifrecurse&&ident.node==\"pkg\".into(){scope=ScopeRef::GLOBAL;}");
     let uses = flat(&f.block).matches("resolve_name(scope,ident,recurse)").count();
     if uses != 1 {
         return Err(format!("resolve_module_part_of_path: expected one `resolve_name(scope, ident, recurse)`, found {uses}"));
@@ -253,6 +257,7 @@ fn scopefacts(repo: &Path) -> Result<String, String> {
     out.push_str("/-- what one iteration of `resolve_name` consults -/\ninductive Step | decl | gate | imports | target | parent\n  deriving DecidableEq, Repr\n\n");
     out.push_str(&format!("/-- … in this order -/\ndef resolveNameOrder : List Step := [{}]\n\n", order.iter().map(|s| format!(".{s}")).collect::<Vec<_>>().join(", ")));
     out.push_str(&format!("/-- the values `resolve_module_part_of_path` gives to `recurse`, in source order -/\ndef recurseValues : List Bool := [{}]\n\n", recurse.join(", ")));
+    out.push_str(&format!("/-- a first segment `pkg` (not after `super`) is looked up from `ScopeRef::GLOBAL` -/\ndef pkgFromGlobal : Bool := {pkg_global}\n\n"));
     out.push_str(&format!("/-- first argument of `wrap` for a script module's scope (character codes) -/\ndef moduleScopeParent : List Nat := {}\n\n", codes(&module_parent)));
     out.push_str(&format!("def fullNameSeparator : List Nat := {}\n\n", codes(&sep)));
     out.push_str(&format!("/-- `get_function` looks up this prefix followed by the given name -/\ndef getFunctionPrefix : List Nat := {}\n\n", codes(&prefix)));
